@@ -890,6 +890,12 @@ class FnTranslator:
             return self.wrap(pre, P(self.pack(env, term)))
         if e[0] == "try" and e[1][0] == "call" and e[1][1] == ("path", ["Err"]):
             return self.result_comp(e[1], env)      # (round 9) `return Err(e)?;` = `return Err(e.into());`
+        if e[0] == "macro" and e[1] in ("panic", "unreachable", "unimplemented", "todo") and self.val_ty != ("unknown",):
+            # (round 10, b8) a diverging macro as the whole Result-typed tail (`fn f(..) -> Result<T, E> { unimplemented!() }`):
+            # panics in every build, like the same macro in a non-Result function
+            pre = []
+            term, _ty = self.expr(e, env, pre, self.val_ty)
+            return self.wrap(pre, P(self.pack(env, term)))
         if e[0] == "call" and e[1][0] == "path" and e[1][1] == ["Err"]:
             pre = []
             tag = self.err_tag(e[2][0], env, pre)
